@@ -340,6 +340,9 @@ struct HCv : Harness {
     if (routine == R_BOOT) { std::vector<int> d; for (int k = 1; k <= 8; k++) if (iters % k == 0) d.push_back(k); nth = d[wr.below(d.size())]; }
     if (routine == R_SPLIT_CONC) { nth = (int)wr.range(2, 4); p.seti("conc_threads", nth); groups = (int)wr.range(1, n); iters = (int)wr.range(1, 12); }
     if (routine == R_PCARANK) nth = (int)p.geti("machine.nproc");
+    // the stated range of group counts starts at 1: everything in one group, i.e. no object left to train on
+    // (not for LDA, which cannot be fitted on an empty training set and is never given one here: see DESIGN section 6)
+    if (!c06 && routine == R_BOOT && learner != L_LDA && wr.chance(0.03)) { groups = 1; p.seti("single_group", 1); }
     p.seti("groups", groups); p.seti("iterations", iters); p.seti("nthreads", nth);
     if (routine == R_KMEANS_CV) p.seti("kinit", (int)wr.below(4));
     p.seti("noise", c06 && wr.chance(0.4) ? 1 + (int)wr.below(6) : 0);   // 0 none, 1..6 the profile of the concurrent caller
@@ -362,6 +365,7 @@ struct HCv : Harness {
       // every training set must keep enough rows
       int maxc = *std::max_element(cnt.begin(), cnt.end());
       if (n - maxc < need_train) { g.clear(); for (int i = 0; i < n; i++) g.push_back(std::to_string(i % ng)); }
+      if (!c06 && wr.chance(0.03)) { g.assign(n, wr.chance(0.5) ? "0" : "3"); p.seti("single_group", 1); }   // one label for every object
       p.setlist("kgroups", g);
     }
     if (!c06) {
@@ -606,6 +610,7 @@ struct HCv : Harness {
     char cfg[256]; snprintf(cfg, sizeof cfg, "%s %s n=%zu p=%zu ny=%zu nlv=%d groups=%d it=%d threads=%d", routine_name[c.routine], learner_name[c.learner], n, c.X[0].size(), ny, c.nlv, c.groups, c.iters, c.nthreads);
     o.cfg = cfg;
     o.counters[std::string("routine.") + routine_name[c.routine]]++;
+    if (p.geti("single_group", 0)) o.counters["probe.single_group"]++;
     Hasher h;
     if (c.routine == R_GEN) { check_generators(p, c, o); h.str(o.msg); o.hash = h.h; return o; }
     int plan_strategy = p.has("sched.switches") ? SIM_REPLAY : (int)p.geti("sched.strategy");
@@ -642,6 +647,7 @@ struct HCv : Harness {
         if (c.routine == R_LOO) { for (size_t i = 0; i < n; i++) if (i != folds[g][0]) train.push_back(i); }
         else for (size_t g2 = 0; g2 < folds.size(); g2++) if (g2 != g) for (size_t i : folds[g2]) train.push_back(i);
         Mat ref;
+        if (train.empty()) { o.counters["skipped.empty_training_set"]++; continue; }   // nothing to refit on; the own-response check below still applies
         if (!refit(c, c.Y, train, folds[g], ref)) { o.counters["skipped.refit_failed"]++; continue; }
         for (size_t k2 = 0; k2 < folds[g].size() && !o.violation; k2++) for (size_t j = 0; j < want_cols; j++) {
           double a = B.pred[folds[g][k2]][j], b = ref[k2][j];
@@ -669,7 +675,7 @@ struct HCv : Harness {
     }
 
     // (d) bootstrap, one iteration: infer the folds from which predictions move, then compare with the refit
-    if (!o.violation && c.routine == R_BOOT && p.geti("infer_folds")) {
+    if (!o.violation && c.routine == R_BOOT && p.geti("infer_folds") && !p.geti("single_group", 0)) {
       std::vector<std::vector<char>> same(n, std::vector<char>(n, 0));
       bool ok = true;
       for (size_t j = 0; j < n && ok; j++) {
@@ -711,7 +717,7 @@ struct HCv : Harness {
     // (g) bootstrap with several iterations: the reported prediction is the plain mean, over the iterations, of out-of-sample
     //     predictions.  The per-iteration folds are not observable, so the routine's documented seed formula is used -- but only
     //     after it has been validated on this very tree: a one-iteration run must equal its public-API reconstruction.
-    if (!o.violation && c.routine == R_BOOT && c.iters > 1 && p.geti("boot_mean_check", 1)) {
+    if (!o.violation && c.routine == R_BOOT && c.iters > 1 && p.geti("boot_mean_check", 1) && !p.geti("single_group", 0)) {
       Case c1 = c; c1.iters = 1;
       Out O1; RunRes r1 = run_once(p, c1, O1, SIM_S0_SEQUENTIAL, 1, c.nproc, false, 0);
       o.steps += r1.sr.steps;
